@@ -699,7 +699,7 @@ func (tree *MutableTree) GetVersioned(key []byte, version int64) ([]byte, error)
 		}
 		t, err := tree.GetImmutable(version)
 		if err != nil {
-			return nil, nil
+			return nil, err
 		}
 		value, err := t.Get(key)
 		if err != nil {
